@@ -1,0 +1,141 @@
+//go:build verif
+
+// Contracts for indexing and slicing (C13, C17, C10).  See /verif/DESIGN.md.
+
+package py
+
+//@ spec isNone(x Object) bool = is(x, NoneType)
+//@ spec noneOrInt(x Object) bool = isNone(x) || isIntLike(x)
+//@ spec sliceOK(s *Slice) bool = noneOrInt(s.Start) && noneOrInt(s.Stop) && noneOrInt(s.Step)
+//@ spec fitsIdx(x Object) bool = isNone(x) || inInt64(den(x))
+//@ spec sliceFits(s *Slice) bool = fitsIdx(s.Start) && fitsIdx(s.Stop) && fitsIdx(s.Step)
+//@ spec sstep(s *Slice) int = imax(si_step(!isNone(s.Step), den(s.Step)), 0 - 9223372036854775807)
+//@ spec sstart(s *Slice, n int) int = si_start(!isNone(s.Start), den(s.Start), sstep(s), n)
+//@ spec sstop(s *Slice, n int) int = si_stop(!isNone(s.Stop), den(s.Stop), sstep(s), n)
+//@ spec slen(s *Slice, n int) int = si_len(sstart(s, n), sstop(s, n), sstep(s))
+
+// ---- interface methods (dynamic dispatch): what is known about the implementers under contract ----
+
+//@ iface I__index__.M__index__(self) (r, err)
+//@   modifies *
+//@   pureif isIntLike(self)
+//@   ensures small: is(self, Int) ==> err == nil && r == self.(Int)
+//@   ensures bool: is(self, Bool) ==> err == nil && r == den(self)
+//@   ensures bigfit: is(self, *BigInt) && inInt64(den(self)) ==> err == nil && r == den(self)
+//@   ensures bigbig: is(self, *BigInt) && !inInt64(den(self)) ==> raisesExc(err, OverflowError)
+
+//@ iface Object.Type(self) (r)
+//@   pure
+//@   ensures nn: r != nil
+
+// ---- py/internal.go ----
+
+//@ func TypeCall0(self, name) (res, ok, err)
+//@   trusted
+//@   modifies *
+//@   ensures nn: ok && err == nil ==> res != nil
+
+//@ func Index(a) (r, err)
+//@   requires nn: a != nil
+//@   modifies *
+//@   pureif isIntLike(a)
+//@   ensures fit: isIntLike(a) && inInt64(den(a)) ==> err == nil && r == den(a)
+//@   ensures big: isIntLike(a) && !inInt64(den(a)) ==> raisesExc(err, OverflowError)
+
+//@ func IndexInt(a) (r, err)
+//@   requires nn: a != nil
+//@   modifies *
+//@   pureif isIntLike(a)
+//@   ensures fit: isIntLike(a) && inInt64(den(a)) ==> err == nil && r == den(a)
+//@   ensures big: isIntLike(a) && !inInt64(den(a)) ==> err != nil
+
+//@ func IndexIntCheck(a, max) (r, err)
+//@   requires nn: a != nil
+//@   modifies *
+//@   pureif isIntLike(a)
+//@   ensures rng: err == nil ==> 0 <= r && r < max
+//@   ensures ok: isIntLike(a) && 0 <= norm(den(a), max) && norm(den(a), max) < max ==> err == nil && r == norm(den(a), max)
+//@   ensures oob: isIntLike(a) && inInt64(den(a)) && !(0 <= norm(den(a), max) && norm(den(a), max) < max) ==> raisesExc(err, IndexError)
+//@   ensures oobbig: isIntLike(a) && !inInt64(den(a)) && max >= 0 ==> err != nil
+
+// ---- py/slice.go ----
+
+//@ func (*Slice).GetIndices(r, length) (start, stop, step, slicelength, err)
+//@   requires len: length >= 0
+//@   requires nn: r.Start != nil && r.Stop != nil && r.Step != nil
+//@   modifies *
+//@   pureif sliceOK(r)
+//@   ensures zero: sliceOK(r) && fitsIdx(r.Step) && !isNone(r.Step) && den(r.Step) == 0 ==> raisesExc(err, ValueError)
+//@   ensures specerr: sliceOK(r) && sliceFits(r) && (isNone(r.Step) || den(r.Step) != 0) ==> err == nil
+//@   ensures specstep: sliceOK(r) && sliceFits(r) && err == nil ==> step == sstep(r)
+//@   ensures specstart: sliceOK(r) && sliceFits(r) && err == nil ==> start == sstart(r, length)
+//@   ensures specstop: sliceOK(r) && sliceFits(r) && err == nil ==> stop == sstop(r, length)
+//@   ensures speclen: sliceOK(r) && sliceFits(r) && err == nil ==> slicelength == slen(r, length)
+//@   ensures stepnz: err == nil ==> step != 0 && slicelength >= 0 && 0 - 9223372036854775807 <= step
+//@   ensures inb: err == nil ==> forall k in [0, slicelength): 0 <= start + k*step && start + k*step < length
+//@   ensures bounds: err == nil ==> 0 - 1 <= start && start <= length && 0 - 1 <= stop && stop <= length
+//@   ensures step1: err == nil && step == 1 ==> 0 <= start && 0 <= stop && slicelength == imax(stop - start, 0)
+
+// ---- py/list.go ----
+
+//@ spec keyOK(key Object) bool = isIntLike(key) || (is(key, *Slice) && sliceOK(key.(*Slice)))
+//@ spec sliceNN(s *Slice) bool = s.Start != nil && s.Stop != nil && s.Step != nil
+//@ spec keyNN(key Object) bool = key != nil && (is(key, *Slice) ==> sliceNN(key.(*Slice)))
+
+//@ func (*List).M__getitem__(l, key) (res, err)
+//@   requires nn: keyNN(key)
+//@   modifies *
+//@   pureif keyOK(key)
+//@   ensures idx: isIntLike(key) && err == nil ==> res == old(l.Items[norm(den(key), len(l.Items))])
+//@   ensures idxok: isIntLike(key) && 0 <= norm(den(key), len(old(l.Items))) && norm(den(key), len(old(l.Items))) < len(old(l.Items)) ==> err == nil
+//@   ensures idxerr: isIntLike(key) && inInt64(den(key)) && !(0 <= norm(den(key), len(old(l.Items))) && norm(den(key), len(old(l.Items))) < len(old(l.Items))) ==> raisesExc(err, IndexError)
+//@   ensures slshape: is(key, *Slice) && sliceOK(key.(*Slice)) && err == nil ==> is(res, *List) && fresh(res.(*List)) && (len(res.(*List).Items) > 0 ==> fresh(res.(*List).Items))
+//@   ensures sllen: is(key, *Slice) && sliceOK(key.(*Slice)) && sliceFits(key.(*Slice)) && err == nil ==> len(res.(*List).Items) == slen(key.(*Slice), len(old(l.Items)))
+//@   ensures slitems: is(key, *Slice) && sliceOK(key.(*Slice)) && sliceFits(key.(*Slice)) && err == nil ==> forall k in [0, len(res.(*List).Items)): res.(*List).Items[k] == old(l.Items[sstart(key.(*Slice), len(l.Items)) + k * sstep(key.(*Slice))])
+//@   loop 1 (i, j)
+//@     invariant lin: 0 <= j && j <= slicelength && (j < slicelength ==> i == start + j*step)
+//@     invariant shape: newList != nil && newList != l && len(newList.Items) == slicelength && (slicelength > 0 ==> ref(newList.Items) != ref(l.Items)) && off(newList.Items) == 0
+//@     invariant done: forall k in [0, j): newList.Items[k] == l.Items[start + k*step]
+//@     decreases slicelength - j
+
+// ---- py/tuple.go ----
+
+//@ func (Tuple).M__getitem__(t, key) (res, err)
+//@   requires nn: keyNN(key)
+//@   modifies *
+//@   pureif keyOK(key)
+//@   ensures idx: isIntLike(key) && err == nil ==> res == t[norm(den(key), len(t))]
+//@   ensures idxok: isIntLike(key) && 0 <= norm(den(key), len(t)) && norm(den(key), len(t)) < len(t) ==> err == nil
+//@   ensures idxerr: isIntLike(key) && inInt64(den(key)) && !(0 <= norm(den(key), len(t)) && norm(den(key), len(t)) < len(t)) ==> raisesExc(err, IndexError)
+//@   ensures slshape: is(key, *Slice) && sliceOK(key.(*Slice)) && err == nil ==> is(res, Tuple)
+//@   ensures sllen: is(key, *Slice) && sliceOK(key.(*Slice)) && sliceFits(key.(*Slice)) && err == nil ==> len(res.(Tuple)) == slen(key.(*Slice), len(t))
+//@   ensures slitems: is(key, *Slice) && sliceOK(key.(*Slice)) && sliceFits(key.(*Slice)) && err == nil ==> forall k in [0, len(res.(Tuple))): res.(Tuple)[k] == old(t[sstart(key.(*Slice), len(t)) + k * sstep(key.(*Slice))])
+//@   ensures operand: keyOK(key) ==> arr(t) == old(arr(t))
+//@   loop 1 (i, j)
+//@     invariant lin: 0 <= j && j <= slicelength && (j < slicelength ==> i == start + j*step)
+//@     invariant shape: len(newTuple) == slicelength && (slicelength > 0 ==> ref(newTuple) != ref(t)) && off(newTuple) == 0
+//@     invariant done: forall k in [0, j): newTuple[k] == t[start + k*step]
+//@     decreases slicelength - j
+
+//@ func (Tuple).M__add__(a, other) (r, err)
+//@   ensures ni: !is(other, Tuple) ==> r == NotImplemented && err == nil
+//@   ensures shape: is(other, Tuple) ==> err == nil && is(r, Tuple) && len(r.(Tuple)) == len(a) + len(other.(Tuple))
+//@   ensures left: is(other, Tuple) ==> forall k in [0, len(a)): r.(Tuple)[k] == old(a[k])
+//@   ensures right: is(other, Tuple) ==> forall k in [0, len(other.(Tuple))): r.(Tuple)[len(a) + k] == old(other.(Tuple)[k])
+//@   ensures fresh: is(other, Tuple) && len(r.(Tuple)) > 0 ==> fresh(r.(Tuple))
+
+// ---- py/list.go (continued) ----
+
+//@ func (*List).M__add__(a, other) (r, err)
+//@   ensures ni: !is(other, *List) ==> r == NotImplemented && err == nil
+//@   ensures shape: is(other, *List) ==> err == nil && is(r, *List) && fresh(r.(*List)) && len(r.(*List).Items) == len(old(a.Items)) + len(old(other.(*List).Items))
+//@   ensures left: is(other, *List) ==> forall k in [0, len(old(a.Items))): r.(*List).Items[k] == old(a.Items[k])
+//@   ensures right: is(other, *List) ==> forall k in [0, len(old(other.(*List).Items))): r.(*List).Items[len(old(a.Items)) + k] == old(other.(*List).Items[k])
+//@   ensures operands: a.Items == old(a.Items) && arr(a.Items) == old(arr(a.Items)) && (is(other, *List) ==> other.(*List).Items == old(other.(*List).Items) && arr(other.(*List).Items) == old(arr(other.(*List).Items)))
+
+//@ func (*List).DelItem(a, i)
+//@   requires rng: 0 <= i && i < len(a.Items)
+//@   modifies a.Items, mem(a.Items)
+//@   ensures len: len(a.Items) == len(old(a.Items)) - 1
+//@   ensures before: forall k in [0, i): a.Items[k] == old(a.Items[k])
+//@   ensures after: forall k in [i, len(a.Items)): a.Items[k] == old(a.Items[k + 1])
